@@ -1,6 +1,9 @@
 package main
 
 import (
+	v1export "go.opentelemetry.io/proto/otlp/collector/metrics/v1"
+	"google.golang.org/protobuf/proto"
+
 	"bytes"
 	"compress/gzip"
 	"context"
@@ -127,6 +130,16 @@ func (s *scriptServer) handle(w http.ResponseWriter, r *http.Request) {
 		s.fail(w, 400, "InvalidParameterValue")
 	case '5':
 		s.fail(w, 503, "ServiceUnavailable")
+	case 'P':
+		// OTLP partial success: 200, some data points rejected (other protocols: a plain success)
+		if strings.HasSuffix(r.URL.Path, "/v1/metrics") {
+			b, _ := proto.Marshal(&v1export.ExportMetricsServiceResponse{PartialSuccess: &v1export.ExportMetricsPartialSuccess{RejectedDataPoints: 1, ErrorMessage: "scripted rejection"}})
+			w.Header().Set("Content-Type", "application/x-protobuf")
+			w.WriteHeader(200)
+			_, _ = w.Write(b)
+			return
+		}
+		s.ok(w)
 	case '9':
 		w.Header().Set("Retry-After", "1")
 		s.fail(w, 429, "Throttling")
@@ -190,6 +203,18 @@ func bigGaugeMap(n int) *gostatsd.MetricMap {
 	for i := 0; i < n; i++ {
 		mm.Gauges[fmt.Sprintf("m%06d.%s", i, pad)] = map[string]gostatsd.Gauge{
 			"": gostatsd.NewGauge(gostatsd.Nanotime(time.Now().UnixNano()), float64(i)+0.5, "h", nil),
+		}
+	}
+	return mm
+}
+
+// packetGaugeMap renders to exactly n UDP datagrams of the statsd relay: every line is longer than half a datagram
+func packetGaugeMap(n int) *gostatsd.MetricMap {
+	mm := gostatsd.NewMetricMap(false)
+	pad := strings.Repeat("y", 730)
+	for i := 0; i < n; i++ {
+		mm.Gauges[fmt.Sprintf("p%06d.%s", i, pad)] = map[string]gostatsd.Gauge{
+			"": gostatsd.NewGauge(gostatsd.Nanotime(time.Now().UnixNano()), 0.5, "h", nil),
 		}
 	}
 	return mm
@@ -521,6 +546,12 @@ func runSock(its [][]string) string {
 	if scenario == "big" {
 		// one flush of "many" packets: 16000 gauges of ~135 bytes = about 1500 datagrams of 1472 bytes
 		backend.SendMetricsAsync(ctx, bigGaugeMap(16000), rec.cb)
+	} else if scenario == "edge-down-cancel" {
+		// nothing listens; the flush renders to one packet more than the relay's channel of packet buffers holds
+		// (1000), so the producer is parked handing over its very last packet when the flush is cancelled
+		go backend.SendMetricsAsync(ctx, packetGaugeMap(1001), rec.cb)
+		time.Sleep(400 * time.Millisecond)
+		cancel()
 	} else {
 		backend.SendMetricsAsync(ctx, gaugeMap(3), rec.cb)
 	}
